@@ -1,4 +1,5 @@
 import Driver.Common
+import Driver.Views
 import Parsley.Model.Rtps
 import Parsley.Spec.Rtps
 /-
@@ -11,6 +12,14 @@ import Parsley.Spec.Rtps
 
   output lines (implementation and model)
     ok <cursor> <packet> | err | panic <text>
+
+  view variant:  vw <steps> <prehex> <sufhex> <raw … | enc …>     the same case with the datagram as a window of the
+    larger allocation <prehex> ++ <datagram> ++ <sufhex> (a capture buffer), selected by a chain of RestrictView /
+    RestrictViewFrom steps (Driver/Views.lean); PacketP runs on that view.  The unchanged code reports <cursor> as a
+    cursor of the view it was given (= the datagram's length when it accepts), a zero length field means "to the end
+    of the VIEW", and nothing outside the window is read; so the expected output is that of the plain case.  Model and
+    oracle see the window's bytes alone (justification: Parsley.C17.view_refines_copy).  Classes of rejected view
+    cases are prefixed `view-`.
 -/
 namespace Driver.C20
 open Parsley Parsley.Rtps Driver
@@ -51,7 +60,7 @@ def datagramOf (line : String) : Option Bytes :=
   | _ => none
 
 /-- the model: `PacketP::parse` on a fresh buffer -/
-def model (line : String) : String :=
+def modelPlain (line : String) : String :=
   match datagramOf line with
   | none => "bad-case"
   | some bs =>
@@ -60,8 +69,15 @@ def model (line : String) : String :=
     | (.err _, _) => "err"
     | (.panic st, _) => s!"panic {st}"
 
+/-- the window of a case: its second word -/
+def winOf : List String → Option Bytes
+  | _ :: hex :: _ => bytesOfHex hex
+  | _ => none
+
+def model (line : String) : String := Views.model winOf modelPlain line
+
 /-- The oracle.  Computed from `RtpsSpec` only (encoder, WF, reference decoder). -/
-def judge (case impl : String) : String :=
+def judgePlain (case impl : String) : String :=
   match words case with
   | kind :: hex :: pk =>
     match bytesOfHex hex with
@@ -101,6 +117,8 @@ def judge (case impl : String) : String :=
               | none => "ok"
         | _ => "bad panic " ++ (impl.take 60).toString
   | _ => "bad badcase"
+
+def judge (case impl : String) : String := Views.judge winOf judgePlain case impl
 
 /-! ### generators -/
 
@@ -436,7 +454,78 @@ def genBoundary (seed n : Nat) (tier : String) (emit : String → IO Unit) : IO 
     r := r7
     emit s!"raw {hexOfBytes (RtpsSpec.encode q1 ++ RtpsSpec.encode q2 ++ (if three == 0 then RtpsSpec.encode q3 else []))}"
 
-def gen (seed n : Nat) (tier : String) (emit : String → IO Unit) : IO Unit := do
+/-! ### every case once more on a restricted view (Driver/Views.lean)
+
+  Each case line is followed by its view twin: the datagram as a window of a capture buffer.  Axes, cycled by the
+  running case counter `c` with pairwise coprime periods: bytes in front of the window (16: 1, 7, 11, 1000, ... of
+  them - a pcap-like record header and complete RTPS datagrams, or random bytes), chain of restrictions (7: View, From,
+  view of a view in four ways, three deep), bytes behind the window (5).  What lies behind the window CONTINUES the
+  datagram: behind a truncated datagram the rest of it; otherwise the byte that completes a payload one byte short,
+  further complete sub-messages, a zero-length tail sub-message, a whole second datagram, or plain bytes (which a zero
+  length field - "to the end of the datagram" - would swallow if the end were the storage's) - so that a reader going
+  beyond the view's end returns another packet or accepts what must be rejected. -/
+
+def junkText : Bytes :=
+  [0xa1, 0xb2, 0xc3, 0xd4, 0x00, 0x02, 0x00, 0x04, 0x5f, 0x00, 0x00, 0x01, 0x00, 0x00, 0x00, 0x2b, 0x00, 0x00, 0x00, 0x2b] ++
+  RtpsSpec.encode ⟨hdr0, preSubs⟩ ++ RtpsSpec.encode ⟨hdr0, [mkSub 0x15 1 3 (seqBytes 3)]⟩ ++ magic ++ RtpsSpec.encode ⟨hdr0, []⟩
+
+def sufPool : List Bytes :=
+  [ [0x77],
+    RtpsSpec.encodeSub (mkSub 0x15 1 3 (seqBytes 3)),
+    RtpsSpec.encode ⟨hdr0, [mkSub 0x09 1 8 (seqBytes 8)]⟩,
+    seqBytes 20,
+    RtpsSpec.encodeSub (mkSub 0x07 2 0 (seqBytes 6)),
+    [0x00, 0x00],
+    RtpsSpec.encodeSub (mkSub 0x09 0 8 (seqBytes 8)) ++ RtpsSpec.encodeSub (mkSub 0x07 3 0 (seqBytes 6)),
+    seqBytes 300,
+    [0x15, 0x01, 0x02] ]
+
+def viewTwin (c : Nat) (line : String) (cont : Option Bytes) : Option String :=
+  match words line with
+  | _ :: hex :: _ =>
+    match bytesOfHex hex with
+    | none => none
+    | some buf =>
+      -- (tier budget: of the datagrams above 4 kB every fourth gets its twin)
+      if buf.length > 4096 && c % 4 != 0 then none else
+      let pool := sufPool[(c / 5) % sufPool.length]?.getD []
+      let suf : Bytes := match c % 5 with
+        | 1 => []
+        | 3 => pool
+        | _ => cont.getD pool
+      some (Views.viewLine c line buf.length junkText suf)
+  | _ => none
+
+/-- windows that end inside a datagram: well-formed datagrams (both byte orders, explicit and zero length fields,
+    a zero-length tail with and without payload) cut at every byte, the rest lying behind the window; the oracle of
+    `raw` cases decides from the window's bytes (spec reference decoder) -/
+def cutPackets : List Packet :=
+  [ ⟨hdr0, [mkSub 0x15 1 3 (seqBytes 3), mkSub 0x09 0 8 (seqBytes 8), mkSub 0x07 3 0 (seqBytes 6)]⟩,
+    ⟨hdr0, [mkSub 0x06 0 258 (seqBytes 258), mkSub 0x15 1 2 [1, 2]]⟩,
+    ⟨hdr0, [mkSub 0x07 2 0 []]⟩,
+    ⟨⟨0x0201, 0x0103, seqBytes 12⟩, [mkSub 0x15 1 5 (magic ++ [0x00]), mkSub 0x0e 1 0 (magic ++ seqBytes 8)]⟩ ]
+
+def cutWindows (emit : String → IO Unit) : IO Unit := do
+  let mut k := 0
+  for p in cutPackets do
+    let d := RtpsSpec.encode p
+    for cut in List.range d.length do
+      k := k + 1
+      match viewTwin k s!"raw {hexOfBytes (d.take cut)}" (some (d.drop cut)) with
+      | some l => emit l
+      | none => pure ()
+
+def gen (seed n : Nat) (tier : String) (emit0 : String → IO Unit) : IO Unit := do
+  -- every case is emitted twice: as it is, and on a restricted view
+  let ctr ← IO.mkRef 0
+  let emitC (cont : Option Bytes) (line : String) : IO Unit := do
+    emit0 line
+    let c ← ctr.modifyGet fun c => (c, c + 1)
+    match viewTwin c line cont with
+    | some l => emit0 l
+    | none => pure ()
+  let emit := emitC none
+  cutWindows emit0
   -- (5) the fixed-value field (magic) family -----------------------------------
   genFixedField seed n tier emit
   -- (6) content-dependent boundaries, concatenations ----------------------------
@@ -462,7 +551,7 @@ def gen (seed n : Nat) (tier : String) (emit : String → IO Unit) : IO Unit := 
   -- every prefix (truncation) of a three-sub-message datagram
   let d3 := RtpsSpec.encode ⟨hdr0, [mkSub 0x09 1 8 (seqBytes 8), mkSub 0x15 0 5 (seqBytes 5), mkSub 0x07 3 0 (seqBytes 6)]⟩
   for k in List.range (d3.length + 1) do
-    emit s!"raw {hexOfBytes (d3.take k)}"
+    emitC (some (d3.drop k)) s!"raw {hexOfBytes (d3.take k)}"
   -- every single-byte change (4 values) of its first 32 bytes
   for i in List.range 32 do
     for v in [0x00, 0x01, 0xff, 0x52] do
@@ -490,7 +579,7 @@ def gen (seed n : Nat) (tier : String) (emit : String → IO Unit) : IO Unit := 
     ⟨hdr0, [mkSub 0x15 1 0xff00 (seqBytes 0xff00), mkSub 0x15 0 0x00ff (seqBytes 0x00ff)]⟩]
   for p in bigs do
     emit (encLine p)
-    emit s!"raw {hexOfBytes (RtpsSpec.encode p).dropLast}"
+    emitC (some ((RtpsSpec.encode p).drop ((RtpsSpec.encode p).length - 1))) s!"raw {hexOfBytes (RtpsSpec.encode p).dropLast}"
   -- (2)(3) random streams -------------------------------------------------------
   let mut r := Rng.mk' seed
   for _ in List.range n do
@@ -500,9 +589,11 @@ def gen (seed n : Nat) (tier : String) (emit : String → IO Unit) : IO Unit := 
     emit (encLine p)
     -- malformed: one edit of a valid datagram (some stay valid; the oracle decides)
     let (q, r2) := genPacket r 3
-    let (m, r3) := mutate (RtpsSpec.encode q) r2
+    let dq := RtpsSpec.encode q
+    let (m, r3) := mutate dq r2
     r := r3
-    emit s!"raw {hexOfBytes m}"
+    -- (on a view: behind a truncated datagram lies the rest of it)
+    emitC (if m.length < dq.length && dq.take m.length == m then some (dq.drop m.length) else none) s!"raw {hexOfBytes m}"
   for _ in List.range (n / 4) do
     -- arbitrary packet values (not necessarily well-formed), encoded
     let (p, r1) := genPacket r 4
@@ -526,11 +617,14 @@ def gen (seed n : Nat) (tier : String) (emit : String → IO Unit) : IO Unit := 
 
 /-- non-trivial: the datagram gets past the 20-byte header into the sub-message loop
     (an `enc` case with at least one sub-message, or a `raw` case of ≥ 21 bytes starting with the magic) -/
-def nontrivial (line : String) : Bool :=
+def nontrivialPlain (line : String) : Bool :=
   match words line with
   | "enc" :: _ :: _ :: _ :: _ :: n :: _ => n != "0"
   | "raw" :: hex :: _ => hex.length ≥ 42 && hex.startsWith "52545053"
   | _ => false
+
+/-- a case on a view counts when the case does and the window lies inside a larger allocation -/
+def nontrivial (line : String) : Bool := Views.nontrivial nontrivialPlain line
 
 def driver : PropDriver := { gen, model, judge, nontrivial }
 end Driver.C20
